@@ -273,14 +273,14 @@ impl private::StoreCallbacks<TextResource> for AnnotationStore {
     fn preremove(&mut self, handle: TextResourceHandle) -> Result<(), StamError> {
         if let Some(annotations) = self.resource_annotation_metamap.data.get(handle.as_usize()) {
             for a_handle in annotations.clone() {
-                <AnnotationStore as StoreFor<Annotation>>::remove(self, a_handle)?;
+                self.remove_annotation_if_present(a_handle)?;
             }
         }
         if let Some(map) = self.textrelationmap.data.get(handle.as_usize()) {
             let mut annotations: BTreeSet<AnnotationHandle> = BTreeSet::new();
             annotations.extend(map.data.iter().flatten());
             for a_handle in annotations {
-                <AnnotationStore as StoreFor<Annotation>>::remove(self, a_handle)?;
+                self.remove_annotation_if_present(a_handle)?;
             }
         }
         self.resource_annotation_metamap.remove_all(handle);
@@ -490,7 +490,7 @@ impl private::StoreCallbacks<Annotation> for AnnotationStore {
         if let Some(handles) = self.annotation_annotation_map.get(handle) {
             //annotations that point at us (we clone to lose the reference and not break exclusive mutable borrow rules)
             for a_handle in handles.clone() {
-                <AnnotationStore as StoreFor<Annotation>>::remove(self, a_handle)?;
+                self.remove_annotation_if_present(a_handle)?;
             }
         }
         self.annotation_annotation_map.remove_all(handle);
@@ -607,16 +607,26 @@ impl private::StoreCallbacks<AnnotationDataSet> for AnnotationStore {
                 annotations.insert(annotation.handle_or_err()?);
             }
         }
+        //also annotations that point at keys or data in this set
+        if let Some(map) = self.key_annotation_metamap.data.get(handle.as_usize()) {
+            annotations.extend(map.data.iter().flatten());
+        }
+        if let Some(map) = self.data_annotation_metamap.data.get(handle.as_usize()) {
+            annotations.extend(map.data.iter().flatten());
+        }
         for a_handle in annotations {
-            <AnnotationStore as StoreFor<Annotation>>::remove(self, a_handle)?;
+            self.remove_annotation_if_present(a_handle)?;
         }
         if let Some(annotations) = self.dataset_annotation_metamap.data.get(handle.as_usize()) {
             //remove annotations that point at us (we clone to lose the reference and not break exclusive mutable borrow rules)
             for a_handle in annotations.clone() {
-                <AnnotationStore as StoreFor<Annotation>>::remove(self, a_handle)?;
+                self.remove_annotation_if_present(a_handle)?;
             }
         }
         self.dataset_annotation_metamap.remove_all(handle);
+        self.key_annotation_metamap.remove_all(handle);
+        self.data_annotation_metamap.remove_all(handle);
+        self.dataset_data_annotation_map.remove_all(handle);
         Ok(())
     }
 }
@@ -2052,6 +2062,10 @@ impl AnnotationStore {
                 {
                     for a_handle in annotations.clone() {
                         delete.push((set_handle, data_handle, a_handle));
+                        if !self.has_annotation(a_handle) {
+                            //already removed as a dependency of an earlier one
+                            continue;
+                        }
                         if strict {
                             <AnnotationStore as StoreFor<Annotation>>::remove(self, a_handle)?;
                         } else {
@@ -2070,7 +2084,7 @@ impl AnnotationStore {
                 if let Some(annotations) = self.data_annotation_metamap.get(set_handle, data_handle)
                 {
                     for a_handle in annotations.clone() {
-                        <AnnotationStore as StoreFor<Annotation>>::remove(self, a_handle)?;
+                        self.remove_annotation_if_present(a_handle)?;
                     }
                 }
 
@@ -2088,6 +2102,23 @@ impl AnnotationStore {
         }
 
         Ok(())
+    }
+
+    /// Is this annotation (still) in the store?
+    fn has_annotation(&self, handle: AnnotationHandle) -> bool {
+        matches!(self.annotations.get(handle.as_usize()), Some(Some(_)))
+    }
+
+    /// Removes an annotation unless it was already removed as a dependency of one removed earlier in the same cascade
+    pub(crate) fn remove_annotation_if_present(
+        &mut self,
+        handle: AnnotationHandle,
+    ) -> Result<(), StamError> {
+        if self.has_annotation(handle) {
+            <AnnotationStore as StoreFor<Annotation>>::remove(self, handle)
+        } else {
+            Ok(())
+        }
     }
 
     /// Remove key and all associated data
@@ -2112,7 +2143,7 @@ impl AnnotationStore {
 
                 if let Some(annotations) = self.key_annotation_metamap.get(set_handle, key_handle) {
                     for a_handle in annotations.clone() {
-                        <AnnotationStore as StoreFor<Annotation>>::remove(self, a_handle)?;
+                        self.remove_annotation_if_present(a_handle)?;
                     }
                 }
 
